@@ -378,7 +378,8 @@ def _ci(x):
 def coq_case(case, res):
     o = res["out"]
     TRIV = 'mk 0%nat [] None [] [] [] [] false [] (Some []) (Some [])'
-    if case["fam"] or case.get("ec2"):
+    ec2 = case.get("ec2")
+    if case["fam"] or (ec2 and ec2["k"] != "wcsec"):
         return TRIV
     n, shape, desc = case["n"], case["shape"], case["desc"]
     A = _weights(case["mat"])
@@ -386,7 +387,14 @@ def coq_case(case, res):
     types, groups = list(case["types"]), list(case["groups"])
     # extra coords as an exact linear wcs: table k on array axis ax = slope * index + intercept
     tabs = sorted(enumerate(case["tabs"]), key=lambda kt: kt[1][0])      # ExtraCoords keeps tables sorted by axis
-    if desc == "extra_coords":
+    if ec2 and desc == "extra_coords":
+        # WCS-backed extra coords over an exact linear probe: extra pixel dimension j is the cube's pixel axis mapping[j]
+        Am = [[PRIMES[(3 * r + c) % len(PRIMES)] * x for c, x in enumerate(row)] for r, row in enumerate(ec2["mat"])]
+        bm = [1000 * (k + 1) for k in range(len(Am))]
+        tt, gg = list(ec2["types"]), list(range(len(Am)))
+        pmap = "(Some " + Q.lst(ec2["mapping"], Q.nat) + ")"
+        shp = shape
+    elif desc == "extra_coords":
         if any(case["corners"] for _ in [0]) and case["corners"]:
             return TRIV          # corners fall outside the tables (NaN): left to the direct oracle
         m = len(tabs)
@@ -395,13 +403,13 @@ def coq_case(case, res):
         tps = [f"custom:e{k}" for k, tb in tabs]
         grp = list(range(m))
         pmap = "(Some " + Q.lst([n - 1 - tb[0] for k, tb in tabs], Q.nat) + ")"
-        shp = [shape[tb[0]] for k, tb in tabs][::-1]            # virtual array order = reversed pixel-dim order
+        shp = shape
         Am, bm, tt, gg = Arows, brow, tps, grp
     else:
         pmap, shp = "None", shape
         Am, bm, tt, gg = [list(r) for r in A], list(b), types, groups
         if desc == "combined_wcs":
-            if case["corners"]:
+            if case["corners"] and tabs:
                 return TRIV
             for i, (k, tb) in enumerate(tabs):
                 row = [0] * n
@@ -410,6 +418,15 @@ def coq_case(case, res):
                 bm.append(tb[2])
                 tt.append(f"custom:e{k}")
                 gg.append(1000 + i)
+            if ec2:
+                for r, row in enumerate(ec2["mat"]):
+                    full = [0] * n
+                    for c, x in enumerate(row):
+                        full[ec2["mapping"][c]] = PRIMES[(3 * r + c) % len(PRIMES)] * x
+                    Am.append(full)
+                    bm.append(1000 * (r + 1))
+                    tt.append(ec2["types"][r])
+                    gg.append(2000 + r)
     # object ids: the position of the object among the distinct names in first-occurrence order is what the
     # implementation reports for families; for probes the group id itself
     if desc == "combined_wcs":
